@@ -224,10 +224,10 @@ class CoderState(object):
         else:
             value = self.decoded_values[idx]
 
-        if value is None or value < 0:
-            raise PyBufrKitError('Delayed replication factor must be >= 0: got ({!r})'.format(value))
+        if value is None or value < 0 or value != int(value):
+            raise PyBufrKitError('Delayed replication factor must be an integer >= 0: got ({!r})'.format(value))
 
-        return value
+        return int(value)
 
     def build_bitmapped_descriptors(self, bitmap):
         """
